@@ -286,6 +286,9 @@ func (E *Engine) applySpec(st *State, in ssa.Instruction, spec *FuncSpec, callee
 		}
 	}
 	label := shortKey(spec.Key)
+	for _, a := range args {
+		E.checkTypeInvs(st, in, a, "argument of "+label)
+	}
 	// requires
 	for i, cl := range spec.Requires {
 		ev := &cenv{E: E, st: st, vars: vars, heap: st.heap, ctx: cl.Ctx, fc: E.cur, goal: true}
@@ -333,6 +336,7 @@ func (E *Engine) applySpec(st *State, in ssa.Instruction, spec *FuncSpec, callee
 		}
 		st.assume(facts...)
 		st.assume(E.allocFacts(st, res)...)
+		E.assumeTypeInvs(st, res)
 	}
 	rvars := map[string]*Val{}
 	for k, v := range vars {
